@@ -318,6 +318,55 @@ func oneCase(k *run.K, layout string, n int, nq int, allK bool) {
 					protocol(k, "prio", pos, len(order), func(cb func(int) error) error { return t.PrioritySearch(qb, cb) })
 				}
 			}
+			// nested searches (a nearest-neighbour join): searches with other query boxes run to completion from
+			// inside the callback of this one, which must still be complete and in order afterwards
+			if n >= 2 && qi < 6 {
+				at := r.Intn(n)
+				other := rtree.Box{MinX: qb.MaxX + 3, MinY: qb.MinY - 7, MaxX: qb.MaxX + 4, MaxY: qb.MinY - 5}
+				var outer []int
+				innerOK := true
+				err := t.PrioritySearch(qb, func(id int) error {
+					outer = append(outer, id)
+					if len(outer)-1 == at {
+						var inner []int
+						if e := t.PrioritySearch(other, func(j int) error { inner = append(inner, j); return nil }); e != nil || len(inner) != n {
+							innerOK = false
+						}
+						prevI := -1.0
+						for _, j := range inner {
+							if j < 0 || j >= n {
+								innerOK = false
+								break
+							}
+							d := distRef(ref[j].Box, other)
+							if d < prevI {
+								innerOK = false
+							}
+							prevI = d
+						}
+						_ = t.RangeSearch(other, func(int) error { return nil })
+						_, _ = t.Nearest(other)
+					}
+					return nil
+				})
+				okN := err == nil && len(outer) == n
+				prevO := -1.0
+				seen := map[int]bool{}
+				for _, id := range outer {
+					if id < 0 || id >= n || seen[id] {
+						okN = false
+						break
+					}
+					seen[id] = true
+					d := distRef(ref[id].Box, qb)
+					if d < prevO {
+						okN = false
+					}
+					prevO = d
+				}
+				k.Check("prio-order", okN && innerOK, "PrioritySearch(%v) n=%d with a nested search at visit %d: outer %v (inner ok=%v)", qb, n, at, clip(outer), innerOK)
+				k.Count("nested_searches", 1)
+			}
 		}
 	}
 	if n == 0 {
